@@ -36,8 +36,8 @@ CHECKS = {
    note="Trusted: SimStream semantics, the canonicaliser, the catalogue's nesting model. The solo reference is the same library in isolation, so an error identical in every history is invisible here by design (that is what the pure-decode properties are about). Arguments stay inside each query's documented domain."),
  'C13': dict(engine='histsim', category='exploration', design_ref='DESIGN.md section 3 / C13',
    technique='deterministic simulation: the E1 scheduler with the op mix restricted to unit / address-range / name-table lookups over the lazily filled, bisect-maintained unit cache; oracle = linear scans of the tables and unit extents + solo execution',
-   text="Scope: the lookup clauses (address -> unit offset or nothing; offset -> containing unit / exact unit, for all lookup orders; names -> existing unit and entry). Lookups are interleaved and displaced as in C10 and compared with linear scans over the entries the tables expose and over the catalogue's unit extents. That ranges/names/headers equal the encoded bytes is pure decode and not decided by this technique.",
-   note="Overlapping address ranges are outside the quantifier: soundness only there. Trusted: as C10."),
+   text="Lookups (address -> unit offset or nothing; offset -> containing unit / exact unit, for all lookup orders over the lazily filled unit cache; names -> unit and entry) are interleaved and displaced as in C10 and compared with linear scans over the catalogue's unit extents and with independent raw models of the corpus' .debug_aranges / .debug_pubnames / .debug_pubtypes tables (set headers, tuples, names in encoded order). In addition seeded synthetic tables of the shapes the quantifier names (several sets, empty sets, unsorted and abutting ranges, address size 4/8, both byte orders, non-ASCII and duplicated names) are handed to the real ARanges / NameLUT classes over a simulated stream and looked up in seeded orders with cursor displacement, against the linear scan of what was encoded. Sampling: evidence, not proof.",
+   note="Overlapping address ranges (and zero-length ranges inside another range) are outside the quantifier: soundness only / not generated. 64-bit DWARF tables are not modelled (the library does not support them). Trusted: as C10, plus the small raw readers/encoders in dst/core/rawdwarf.py and dst/engines/lutgen.py."),
  'C11': dict(engine='storesim', category='exploration', design_ref='DESIGN.md section 3 / C11',
    technique='deterministic simulation with fault injection: the storage container and the linked peer files are swapped under the unchanged library (simulated disk + stream_loader seam), stored size declarations and checksums are damaged; oracle = canonical DWARF view of the plain container',
    text="Per image with debug info: the same logical debug bytes re-stored plainly, gABI-compressed (3 levels), legacy .zdebug (all / only-shrinking / seeded subsets), split behind a CRC-checked debug link (peer plain/gABI/legacy, served by the simulated loader), with/without follow_links and loader, supplementary-link pairs with compressed main/peer; the full canonical view (units, entries, line tables, both frame tables incl. decoded rows, type units, aranges, pubnames, loc/range lists) must equal the plain container's. Enumerated faults: declared size != inflated size (gABI and legacy, both directions) and checksum mismatch (wrong file, flipped byte, truncated peer, damaged checksum field) must be rejected. Enumerated configurations per image + seeded compositions.",
